@@ -486,6 +486,37 @@ Check C06_cli_text_echo_object_finite : forall pfs pbody emit nameof fmt_pieces 
   /\ json_equiv (jcanon x) x.
 Print Assumptions C06_cli_text_echo_object_finite.
 
+(* the output of the echo program is a fixed point: fed back as the input of
+   `output <name> = inputs.<name>` it is reproduced byte for byte *)
+Theorem C06_cli_text_echo_fixed_point : forall pfs pbody emit nameof fmt_pieces float_of_tok okf,
+  (forall x, okf x = true -> tok_wf (fmt_pieces x) = true /\ tok_is_float (fmt_pieces x) = true) ->
+  (forall x, okf x = true -> float_of_tok (fmt_pieces x) = Some x) ->
+  (forall x, okf x = true -> is_finite x = true) ->
+  (forall t x, float_of_tok t = Some x -> okf x = true) ->
+  (forall z, I64_MIN <= z <= U64_MAX -> okf (num_of_Z z) = true) ->
+  forall s m key name x,
+  json_from_str float_of_tok s = Some (JObj m) ->
+  forallb (fun kv => json_no_reserved pfs (sj_build (snd kv))) m = true ->
+  jlookup m key = Some x ->
+  let out := jprint fmt_pieces (JObj [(name, jcanon x)]) in
+  cli_text_echo pfs pbody emit nameof fmt_pieces float_of_tok s key name = Ok out /\
+  cli_text_echo pfs pbody emit nameof fmt_pieces float_of_tok out name name = Ok out.
+Proof. exact cli_text_echo_fixed_point. Qed.
+Check C06_cli_text_echo_fixed_point : forall pfs pbody emit nameof fmt_pieces float_of_tok okf,
+  (forall x, okf x = true -> tok_wf (fmt_pieces x) = true /\ tok_is_float (fmt_pieces x) = true) ->
+  (forall x, okf x = true -> float_of_tok (fmt_pieces x) = Some x) ->
+  (forall x, okf x = true -> is_finite x = true) ->
+  (forall t x, float_of_tok t = Some x -> okf x = true) ->
+  (forall z, I64_MIN <= z <= U64_MAX -> okf (num_of_Z z) = true) ->
+  forall s m key name x,
+  json_from_str float_of_tok s = Some (JObj m) ->
+  forallb (fun kv => json_no_reserved pfs (sj_build (snd kv))) m = true ->
+  jlookup m key = Some x ->
+  let out := jprint fmt_pieces (JObj [(name, jcanon x)]) in
+  cli_text_echo pfs pbody emit nameof fmt_pieces float_of_tok s key name = Ok out /\
+  cli_text_echo pfs pbody emit nameof fmt_pieces float_of_tok out name name = Ok out.
+Print Assumptions C06_cli_text_echo_fixed_point.
+
 (* a bare (non-object) input is echoed through inputs.value_1; the output is one level deeper than
    the input, hence nesting <= 126 (C06_cli_text_echo_depth_refuted, finding C06-F31) *)
 Theorem C06_cli_text_echo_non_object : forall pfs pbody emit nameof fmt_pieces float_of_tok okf,
@@ -616,6 +647,23 @@ Check C06_cli_text_echo_non_object_exact : forall pfs pbody emit nameof s d name
   /\ json_from_str rn_float_of_tok (jprint exact_pieces (JObj [(name, jcanon d)])) = Some (JObj [(name, jcanon d)])
   /\ json_equiv (jcanon d) d.
 Print Assumptions C06_cli_text_echo_non_object_exact.
+
+Theorem C06_cli_text_echo_fixed_point_exact : forall pfs pbody emit nameof s m key name x,
+  json_from_str rn_float_of_tok s = Some (JObj m) ->
+  forallb (fun kv => json_no_reserved pfs (sj_build (snd kv))) m = true ->
+  jlookup m key = Some x ->
+  let out := jprint exact_pieces (JObj [(name, jcanon x)]) in
+  cli_text_echo pfs pbody emit nameof exact_pieces rn_float_of_tok s key name = Ok out /\
+  cli_text_echo pfs pbody emit nameof exact_pieces rn_float_of_tok out name name = Ok out.
+Proof. exact cli_text_echo_fixed_point_exact. Qed.
+Check C06_cli_text_echo_fixed_point_exact : forall pfs pbody emit nameof s m key name x,
+  json_from_str rn_float_of_tok s = Some (JObj m) ->
+  forallb (fun kv => json_no_reserved pfs (sj_build (snd kv))) m = true ->
+  jlookup m key = Some x ->
+  let out := jprint exact_pieces (JObj [(name, jcanon x)]) in
+  cli_text_echo pfs pbody emit nameof exact_pieces rn_float_of_tok s key name = Ok out /\
+  cli_text_echo pfs pbody emit nameof exact_pieces rn_float_of_tok out name name = Ok out.
+Print Assumptions C06_cli_text_echo_fixed_point_exact.
 
 (* sentence one of the property through text, for the instance *)
 Theorem C06_cli_text_out_in_exact : forall pfs pbody emit nameof v name,
